@@ -46,18 +46,17 @@ theorem newest_mem (fs : FS) (cands : List Name) (n : Name) (h : fs.newest cands
   · cases he
 
 /-- T: one step of builder `i` — any builder, any state satisfying the invariant — keeps the
-invariant, provided the step is not the regeneration write. -/
-theorem inv_step (s : State) (i : Nat) (h : Inv s.fs.get s.procs) (hr : s.atRegen i = false) :
+invariant. -/
+theorem inv_step (s : State) (i : Nat) (h : Inv s.fs.get s.procs) :
     Inv (s.step i).fs.get (s.step i).procs := by
   have hty := h.typed i
   have hoth := step_other s i
   rw [step_fs]
   generalize hP' : (s.step i).procs = P' at *
   have hself : P' i = (stepProc s.fs (s.procs i)).2 := by rw [← hP']; exact step_self s i
-  unfold State.atRegen at hr
-  revert hself hr hty
+  revert hself hty
   generalize hp : s.procs i = p
-  intro hr hty hself
+  intro hty hself
   obtain ⟨prog, Γ, obs, marks⟩ := p
   have hΓ : (s.procs i).ctx = Γ := by rw [hp]
   have hO : (s.procs i).obs = obs := by rw [hp]
@@ -204,7 +203,48 @@ theorem inv_step (s : State) (i : Nat) (h : Inv s.fs.get s.procs) (hr : s.atRege
       · intro k' t' he
         simp only [FS.set, hadv k', if_false] at he
         exact Or.inl he
-    | regen dst c => simp [isRegen] at hr
+    | regen dst c => exact hok.elim
+    | rename t dst =>
+      simp only [stepOp] at hself ⊢
+      obtain ⟨k, hk, hdst⟩ := hok
+      subst hdst
+      have hgt := h.ownClosed i t k (by rw [hΓ]; exact hk)
+      have htmp := h.ownTmp i t (owns_closed (by rw [hΓ]; exact hk))
+      have hadv : ∀ k', Name.adv k' ≠ t := by
+        intro k' hk'; rw [← hk'] at htmp; simp [Name.isTmp] at htmp
+      have hnolink : ∀ k' t', s.fs.get (.adv k') = some (.link t') → t' ≠ t := by
+        intro k' t' he e; subst e
+        exact h.linkFree k' t' i he (owns_closed (by rw [hΓ]; exact hk))
+      simp only [hgt] at hself ⊢
+      refine inv_release (g' := ((s.fs.set (.adv k) (some (.file k true))).set t none).get) i h
+        (t := t) (c := k) (by rw [hΓ]; exact hk) hoth (by rw [hself, hΓ]; rfl)
+        (by rw [hself]; exact hnext) (by rw [hself, hO]) ⟨?_, ?_⟩ ?_ ?_
+      · intro k' c b he
+        simp only [FS.set, hadv k', if_false] at he
+        split at he
+        · next e => cases he; cases e; exact ⟨rfl, rfl⟩
+        · exact h.good.advFile k' c b he
+      · intro k' t' he
+        simp only [FS.set, hadv k', if_false] at he ⊢
+        split at he
+        · cases he
+        · have hold := h.good.advLink k' t' he
+          simp only [hnolink k' t' he, if_false]
+          split
+          · next e =>
+            -- an (old-layout) link onto the final name that is being replaced: same content
+            rw [e] at hold
+            have := (h.good.advFile k k' true hold).1
+            rw [this]
+          · exact hold
+      · intro x hx hxt
+        have : x ≠ .adv k := by intro e; rw [e] at hxt; simp [Name.isTmp] at hxt
+        simp [FS.set, hx, this]
+      · intro k' t' he
+        simp only [FS.set, hadv k', if_false] at he
+        split at he
+        · cases he
+        · exact Or.inl he
     | read n checked =>
       simp only [stepOp] at hself ⊢
       cases hres : s.fs.resolve n with
